@@ -579,7 +579,27 @@ func runRemoteWatch(t *testing.T, c rwCase) (coq string, problems []string, flag
 			}
 		}
 
-		_ = gaveUp
+		// "retries exhausted" is a legitimate end only if retrying was tried: since the stream last broke there must have
+		// been at least one re-dial (the property lists exhausted retries, not "the watch is old")
+		if gaveUp {
+			lastBreak, attempts := -1, 0
+
+			for i, r := range rs {
+				if r.what == "end" && first[r.call] {
+					lastBreak = i
+				}
+			}
+
+			for i, r := range rs {
+				if i > lastBreak && lastBreak >= 0 && (r.what == "dial-fail" || r.what == "msg" || r.what == "end") {
+					attempts++
+				}
+			}
+
+			if lastBreak >= 0 && attempts == 0 {
+				problems = append(problems, "gave-up-without-retry: the adapter ended the watch with \"maximum retry attempts\" although it made no attempt to re-establish the stream after it broke")
+			}
+		}
 
 		// ---- Coq case ----
 		var mb, ib, ob []string
@@ -781,6 +801,15 @@ func TestC13(t *testing.T) {
 						{Op: "update", ID: "a"}, {Op: "label", ID: "a", Label: "w"}, {Op: "destroy", ID: "b"}, {Op: "sleep", D: int64(time.Minute)}, {Op: "update", ID: "a"},
 					}})
 			}
+		}
+
+		// corpus: the first failure comes long after the watch was established (and long after the last one)
+		for _, k := range []string{"kind", "single", "aggregated", "kindbm"} {
+			cases = append(cases, rwCase{Kind: k, Cap: 64, Gap: 1, Pre: 1, FinalNap: int64(time.Hour), Plan: []watchFault{{BreakAfter: 3}, {BreakAfter: 2}},
+				Steps: []rwStep{
+					{Op: "create", ID: "a", Label: "v"}, {Op: "update", ID: "a"}, {Op: "sleep", D: int64(20 * time.Minute)}, {Op: "update", ID: "a"}, {Op: "update", ID: "a"},
+					{Op: "sleep", D: int64(time.Minute)}, {Op: "update", ID: "a"}, {Op: "sleep", D: int64(40 * time.Minute)}, {Op: "update", ID: "a"}, {Op: "update", ID: "a"}, {Op: "update", ID: "a"},
+				}})
 		}
 
 		for range tier(600, 12000) {
